@@ -8,4 +8,13 @@ BUDGET = {'quick': 840, 'thorough': 3600}
 
 
 def obligations(tier):
-    return _e1.obligations(tier) + _e2.obligations(tier)
+    o = _e1.obligations(tier) + _e2.obligations(tier)
+    # emission lemmas of the Snappy compressor (every offset the match finder may hand over x every length is emitted as a LEGAL element:
+    # offset != 0, inside the 16-bit / 11-bit fields) — obligations shared with C09; they reach match distances (up to the window limit
+    # of the source) that the bounded compressor runs cannot (added after seeded C10-snappy-window-64k)
+    from props import C09
+    for ob in C09.obligations(tier):
+        if ob.name.startswith('lemma/'):
+            ob.name = 'snappy-compressor-' + ob.name
+            o.append(ob)
+    return o
